@@ -79,6 +79,23 @@ def run_case(c, rnd, tmp):
                     if type(e).__name__ != "LeaspyConvergenceError" or attempt == 3:
                         raise
                     model = model_factory(kind, instance_name=("my-model_1" if iname == "custom" else None), **kw)
+            p1 = os.path.join(tmp, f"m_{rnd.random()}.json")
+            if origin in ("edited", "refit"):
+                # the object and the path have a past: trajectories were asked, the model was saved to and loaded from the SAME
+                # path before it changes
+                trajectories(model, dim, int(getattr(model, "source_dimension", 0) or 0))
+                model.save(p1)
+                try:
+                    trajectories(BaseModel.load(p1), dim, int(getattr(model, "source_dimension", 0) or 0))
+                except Exception:  # noqa: BLE001 - whether this configuration loads at all is judged below, on the final file
+                    pass
+            if origin == "refit":
+                # the fitted object is calibrated again (continues from where it stands)
+                try:
+                    model.fit(data, "mcmc_saem", n_iter=4, n_burn_in_iter=3, seed=rnd.randrange(1000), progress_bar=False)
+                except Exception as e:  # noqa: BLE001
+                    if type(e).__name__ != "LeaspyConvergenceError":
+                        raise
             if origin == "edited":
                 # hand-written values put into the fitted model object itself
                 new = {}
@@ -93,7 +110,6 @@ def run_case(c, rnd, tmp):
             # derived quantities agree with the parameters that get saved: recompute from scratch on the state
             from ..wrap import stale_nodes
             rec["derived_consistent"] = len(stale_nodes(model.state)) == 0
-            p1 = os.path.join(tmp, f"m_{rnd.random()}.json")
             model.save(p1)
             rec["save_ok"] = os.path.exists(p1)
             try:
